@@ -268,6 +268,38 @@ impl World {
                 acc.esdt.set_roles(f[2].as_bytes().to_vec(), roles);
                 "ok".into()
             }
+            // wipe <addr>: emulate a contract that was deployed BEFORE the code under test was written — every storage
+            // entry whose key does not belong to a storage mapper of the reference sources is deleted (an upgrade runs
+            // `upgrade`, never `init`, so state that only the new `init` writes does not exist on such a contract).
+            // On the unchanged sources nothing is deleted.
+            "wipe" => {
+                let a = addr(&unhx(f[1]));
+                let kind = self.kinds.get(&a.to_vec()).cloned().unwrap_or_default();
+                let known: &[&str] = match kind.as_str() {
+                    "gateway" => &["domain_separator", "epoch", "epoch_by_signer_hash", "last_rotation_timestamp", "messages",
+                        "minimum_rotation_delay", "operator", "previous_signers_retention", "signer_hash_by_epoch"],
+                    "gas-service" => &["gas_collector"],
+                    "governance" => &["gateway", "governance_address", "governance_chain", "minimum_time_lock_delay", "operator",
+                        "operator_approvals", "refund_token", "time_lock_eta"],
+                    "token-manager" => &["account_roles", "flow_in_amount", "flow_limit", "flow_out_amount", "implementation_type",
+                        "interchain_token_id", "interchain_token_service", "proposed_roles", "token_identifier"],
+                    "its" => &["account_roles", "approved_destination_minters", "chain_name", "chain_name_hash", "gas_service",
+                        "gateway", "proposed_roles", "token_manager", "token_manager_address", "transfer_with_data_lock",
+                        "trusted_address", "pause_module:paused"],
+                    _ => &[],
+                };
+                let mut removed = 0usize;
+                if !known.is_empty() {
+                    if let Some(acc) = self.bm.state.accounts.get_mut(&a) {
+                        let before = acc.storage.len();
+                        acc.storage.retain(|k, _| {
+                            k.starts_with(b"CB_CLOSURE") || k.starts_with(b"ELROND") || known.iter().any(|p| k.starts_with(p.as_bytes()))
+                        });
+                        removed = before - acc.storage.len();
+                    }
+                }
+                format!("ok # wiped {}", removed)
+            }
             // time <n>
             "time" => {
                 self.bm.state.current_block_info.block_timestamp = f[1].parse().unwrap();
